@@ -282,7 +282,8 @@ class BaseAlgorithm(ABC):
         :param num_timesteps: current number of timesteps
         :param total_timesteps:
         """
-        self._current_progress_remaining = 1.0 - float(num_timesteps) / float(total_timesteps)
+        # Clip at zero: the last rollout may overshoot ``total_timesteps``
+        self._current_progress_remaining = max(0.0, 1.0 - float(num_timesteps) / float(total_timesteps))
 
     def _update_learning_rate(self, optimizers: Union[list[th.optim.Optimizer], th.optim.Optimizer]) -> None:
         """
